@@ -20,16 +20,18 @@ def main(tier, replay=None):
     vk_build()
     plain = scratch_build(rd, "plain")
     vk_run(res, "remote", plain, rd, "0,0,0,0", 0, 1500, "qmail-remote-process-messages", opts=["family=msg", "maxlen=%d" % (5 if tier == "quick" else 7)])
+    # two recipients of one message, delivered at the same time by the real qmail-rspawn + two real qmail-remote processes (every interleaving within the preemption bound)
+    vk_run(res, "remote", plain, rd, "%d,0,0,0" % (1 if tier == "quick" else 2), 2, 1500, "two-deliveries-of-one-message-at-the-same-time", opts=["family=pair"])
     vk_run(res, "remote", plain, rd, "0,1,0,0", 1, 1500, "qmail-remote-process-messages-read-in-pieces", opts=["family=msg", "maxlen=%d" % (3 if tier == "quick" else 5)])
     res.rule = ("every byte string over the alphabet up to the length bound is fed to the real blast() of "
                 "qmail-remote.c (whole, in every chunking of reads up to the chunking bound, with a read error "
                 "at every offset, and with the network taking only 1 or 3 bytes per write); non-trivial = contains a CR or a '.' at a line start (the cases where "
                 "stuffing / CR handling is exercised); distinct counted per input string; program level (VK): every message over {CR,LF,.,a} "
                 "up to length %d plus 17 hand-written ones (NUL, 8-bit, 998/1500-byte lines, no final newline) as a queue file on standard input "
-                "of the real qmail-remote process (resolver, connect and server scripted): the DATA payload that reaches the server must be one "
+                "of the real qmail-remote process (resolver, connect and server scripted; and the real qmail-rspawn running two real qmail-remote processes for two recipients of one message whose SMTP dialogues proceed in lock step, under every interleaving within the preemption bound): the DATA payload that reaches the server must be one "
                 "dot-terminated stream that decodes to the message's lines; incomplete last lines are refused without the end-of-data mark; the same with any one read of the message returning 1 byte, half or all but one of the bytes that are there" % (5 if tier == "quick" else 7))
     res.assumptions = ["reference receiver seq/ref_smtp.h implements RFC 5321 4.5.2",
                        "bare CR, CR LF and LF each end a line of the stored message (fixed by tests/unittest_qmail-remote.c)"]
-    res.require_nonzero("evaluations", "distinct_nontrivial", "completed", "aborted", "short_write_runs", "messages_decoded_from_wire", "short_reads_of_the_message")
+    res.require_nonzero("evaluations", "distinct_nontrivial", "completed", "aborted", "short_write_runs", "messages_decoded_from_wire", "short_reads_of_the_message", "pairs_both_delivered")
     lib_conformance(res, rd, src, ['io', 'bytes'], tier, asan=True)
     return res.finish()
